@@ -13,7 +13,7 @@ sd = os.path.join(V, 'seeded', name)
 os.makedirs(sd, exist_ok=True)
 demo_src = [f for f in os.listdir(out_dir) if f.endswith('.rs')]
 for f in ['patch.diff', 'NOTES.md'] + demo_src:
-    if os.path.exists(os.path.join(out_dir, f)):
+    if os.path.exists(os.path.join(out_dir, f)) and os.path.realpath(out_dir) != os.path.realpath(sd):
         shutil.copy(os.path.join(out_dir, f), os.path.join(sd, f))
 crate_dir = {'duckscript': 'duckscript', 'duckscriptsdk': 'duckscript_sdk', 'duckscript_cli': 'duckscript_cli'}[crate]
 wt = '/tmp/wt_seed'
